@@ -123,7 +123,9 @@ def gen_history(rng, maxops=12):
     for _ in range(rng.randint(1, maxops)):
         r = rng.random()
         h = rng.randrange(nh)
-        if r < 0.22:
+        if r < 0.06:
+            ops.append(["next_f", h])
+        elif r < 0.22:
             ops.append(["next_b", h])
         elif r < 0.32:
             ops.append(["next_u"])
@@ -149,7 +151,7 @@ def cases(tier, seed, shard, nshards):
     alphabet = [["next_b", 0], ["next_u"], ["aclose_b", 0], ["aclose_iter", 0], ["asend", 0], ["reborrow", 0], ["next_b", 1],
                 ["tool", "islice2", 0, 1, "close"], ["tool", "takewhile", 0, 1, "abandon"], ["tool", "zip", 0, 0, "close"],
                 ["tool", "list", 0, 0, "close"], ["tool", "chain", 0, 0, "close"], ["tool", "tee0", 1, 1, "close"],
-                ["scope", 0, 1], ["asend", 1], ["next_b", 2]]
+                ["scope", 0, 1], ["asend", 1], ["next_b", 2], ["next_f", 0]]
     maxlen = 3 if tier == "quick" else 4
     for n in range(1, maxlen + 1):
         for hist in itertools.product(alphabet, repeat=n):
@@ -215,6 +217,9 @@ def run_history(case, stats, scoped=None):
 
     async def main():
         handles = [A.borrow(under)]
+        # a reference to the bound ``__anext__`` of each handle, taken BEFORE its first item (the ``fetch =
+        # it.__anext__`` idiom of hand-written loops): it is the handle's method, closed when the handle is
+        fetchers = {0: handles[0].__anext__}
         self_closed = set()  # handles whose own wrapper was certainly closed
         own = ["open"]  # state of each handle itself
         parent = [None]  # index of the handle it was borrowed from (None: the underlying iterator)
@@ -273,8 +278,10 @@ def run_history(case, stats, scoped=None):
                 if got != want:
                     fail("borrow/owner-sequence", f"op {n} next on underlying gave {got}, expected {want}")
                     return
-            elif kind in ("next_b", "asend"):
+            elif kind in ("next_b", "asend", "next_f"):
                 h = op[1] if op[1] < len(handles) else 0
+                if kind == "next_f" and h not in fetchers:
+                    continue
                 if kind == "asend" and (not has_asend or not hasattr(handles[h], "asend")):
                     continue
                 if kind == "asend" and h not in self_closed and state[h] != "open":
@@ -291,6 +298,9 @@ def run_history(case, stats, scoped=None):
                 try:
                     if kind == "asend":
                         got = _uid(await handles[h].asend(None))
+                    elif kind == "next_f":
+                        got = _uid(await fetchers[h]())
+                        counters["reads_through_a_kept_anext_reference"] += 1
                     else:
                         got = _uid(await handles[h].__anext__())
                 except StopAsyncIteration:
@@ -346,6 +356,7 @@ def run_history(case, stats, scoped=None):
             elif kind == "reborrow":
                 src = under if op[1] < 0 or op[1] >= len(handles) else handles[op[1]]
                 handles.append(A.borrow(src))
+                fetchers[len(handles) - 1] = handles[-1].__anext__
                 own.append("open")
                 parent.append(None if src is under else op[1])
             elif kind == "tool":
